@@ -183,7 +183,12 @@ impl Stanza {
                 let node = mat
                     .nodes_for_capture_index(self.full_match_stanza_capture_index as u32)
                     .next()
-                    .expect("missing full capture");
+                    .ok_or_else(|| {
+                        ExecutionError::UndefinedCapture(format!(
+                            "full match of stanza at {}",
+                            self.range.start
+                        ))
+                    })?;
                 StatementContext::new(&statement, &self, &node)
             };
             let mut exec = ExecutionContext {
@@ -292,7 +297,7 @@ impl CreateGraphNode {
                 .mat
                 .nodes_for_capture_index(exec.full_match_stanza_capture_index as u32)
                 .next()
-                .expect("missing capture for full match");
+                .ok_or_else(|| ExecutionError::UndefinedCapture(format!("full match in {}", self)))?;
             let syn_node = exec.graph.add_syntax_node(match_node);
             exec.graph[graph_node]
                 .attributes
